@@ -142,7 +142,7 @@ func reopenAfterCrash() string {
 		arm := st.reArm
 		st.reArm = nil
 		crashed, _ := dies(arm[0], atoi(arm[1]), 0, func() error {
-			db, err := database.Open("ffldb", st.dir, wire.BitcoinNet(st.net))
+			db, err := openFF(false)
 			if err == nil {
 				st.db = db
 			}
@@ -159,13 +159,24 @@ func reopenAfterCrash() string {
 			return out + " reopen err"
 		}
 	}
-	db, err := database.Open("ffldb", st.dir, wire.BitcoinNet(st.net))
+	db, err := openFF(false)
 	if err != nil {
 		return out + " reopen err"
 	}
 	st.db = db
 	knobs()
 	return out + " reopen ok " + cursor()
+}
+
+// openFF creates or opens the database with the history's block file size already in force
+// while openDB reconciles the files with the metadata (as a configured limit would be).
+func openFF(create bool) (database.DB, error) {
+	ffldb.VerifSetInitialMaxBlockFileSize(st.max)
+	defer ffldb.VerifSetInitialMaxBlockFileSize(0)
+	if create {
+		return database.Create("ffldb", st.dir, wire.BitcoinNet(st.net))
+	}
+	return database.Open("ffldb", st.dir, wire.BitcoinNet(st.net))
 }
 
 func exec(t []string) string {
@@ -178,7 +189,7 @@ func exec(t []string) string {
 		dirSeq++
 		st = &state{dir: filepath.Join(base(), fmt.Sprintf("db%d", dirSeq)), net: uint32(atoi(t[1])), max: uint32(atoi(t[2])),
 			cacheMax: uint64(atoi(t[3])), always: t[4] == "always"}
-		db, err := database.Create("ffldb", st.dir, wire.BitcoinNet(st.net))
+		db, err := openFF(true)
 		if err != nil {
 			panic("harness: create: " + err.Error())
 		}
@@ -268,7 +279,7 @@ func exec(t []string) string {
 			panic("harness: close: " + err.Error())
 		}
 		st.db = nil
-		db, err := database.Open("ffldb", st.dir, wire.BitcoinNet(st.net))
+		db, err := openFF(false)
 		if err != nil {
 			return "err"
 		}
